@@ -359,11 +359,23 @@ static void caseC06(uint64_t idx, vh::Rng& g)
 	if (cliDue(idx)) cliPass("C06", al, a, nullptr);
 	CaseAlphabet ca(al); Aut A = mkExpl(a, ca); maybeDerive(g, A, a, ca, kind);
 	R->desc(caseText(al, a)); R->count("gen:" + kind);
-	int rounds = g.chance(1, 4) ? 2 : 1;   // a quarter of the cases: the same object again after in-place modification
+	// a quarter of the cases: the same object again after in-place modification; an eighth: the ALPHABET OBJECT grows
+	// after the first complement (a symbol registered through the translator kept from the beginning, or through a
+	// new one; the automaton may or may not start to use it) and the complement is taken again (seeded change m78)
+	int rounds = g.chance(1, 4) ? 2 : 1; bool grow = R->inputFile.empty() && g.chance(1, 8); if (grow) rounds = g.range(2, 3);
 	for (int round = 0; round < rounds; ++round)
 	{
-	std::string C06 = round ? "C06/after-in-place-mutation" : "C06";
-	if (round) { mutateInPlace(g, al, A, a, ca); R->desc(caseText(al, a) + "(modified in place)"); R->count("after-in-place-mutation"); R->extraEvaluation(); }
+	std::string C06 = round ? (grow ? "C06/after-alphabet-growth" : "C06/after-in-place-mutation") : "C06";
+	if (round && grow)
+	{
+		int maxr = 0; for (int r : al.rank) maxr = std::max(maxr, r);
+		int rk = g.range(0, std::min(2, std::max(1, maxr))); int i = ca.extend(al, rk, g.chance(2, 3));
+		if (g.chance(1, 2)) { std::set<St> ss = a.states(); std::vector<St> st(ss.begin(), ss.end()); if (st.empty()) st.push_back(0);
+			RRule r; r.sym = i; for (int j = 0; j < rk; ++j) r.ch.push_back(st[g.below(st.size())]); r.par = st[g.below(st.size())];
+			std::vector<size_t> ch(r.ch.begin(), r.ch.end()); A.AddTransition(ch, ca.num[i], r.par); a.rules.insert(r); }
+		R->desc(caseText(al, a) + "(alphabet grown after the first complement)"); R->count("after-alphabet-growth"); R->extraEvaluation();
+	}
+	else if (round) { mutateInPlace(g, al, A, a, ca); R->desc(caseText(al, a) + "(modified in place)"); R->count("after-in-place-mutation"); R->extraEvaluation(); }
 	try
 	{
 		R->phase("Complement");
